@@ -37,7 +37,7 @@ type Tape struct {
 	Path    string  `json:"path"` // isreplay | verify
 	Etype   int     `json:"etype,omitempty"`
 	Shape   string  `json:"shape"`
-	AltMs   int64   `json:"alt_skew_ms,omitempty"` // clock skew of a second settings object in the same process (0 = none)
+	AltMs   int64   `json:"alt_skew_ms,omitempty"`          // clock skew of a second settings object in the same process (0 = none)
 	AltKt   string  `json:"alt_keytab_principal,omitempty"` // path=verify: the second settings object overrides the keytab principal with HTTP/<this service>
 	Tasks   []TaskT `json:"tasks"`
 }
